@@ -27,6 +27,7 @@ type Sim struct {
 	Steps    int64
 	Failures []string // discipline violations, goroutine panics
 	Timeout  time.Duration
+	chans    map[uintptr]*chanInfo
 }
 
 type g struct {
